@@ -33,6 +33,31 @@ fn feature_class(v: &V) -> String {
     kinds.into_iter().collect::<Vec<_>>().join("+")
 }
 
+/// replace every timestamp whose zone offset has seconds (local mean time before the zone was
+/// standardised) by a placeholder: RFC 3339 cannot spell such an offset
+fn blank_seconds_offset_timestamps(v: &V) -> V {
+    use crate::model::v::G;
+    let f = blank_seconds_offset_timestamps;
+    let tags = |t: &crate::model::v::Tags| t.iter().map(|(k, x)| (k.clone(), f(x))).collect::<Vec<_>>();
+    match v {
+        V::DateTime(d) if d.offset % 60 != 0 => V::Str(format!("<timestamp in {} at an offset with seconds>", d.tz)),
+        V::List(l) => V::List(l.iter().map(f).collect()),
+        V::Dict(d) => V::Dict(tags(d)),
+        V::Grid(g) => V::Grid(Box::new(G {
+            ver: g.ver.clone(),
+            meta: g.meta.as_ref().map(|m| tags(m)),
+            cols: g.cols.iter().map(|c| crate::model::v::Col { name: c.name.clone(), meta: c.meta.as_ref().map(|m| tags(m)) }).collect(),
+            rows: g.rows.iter().map(|r| tags(r)).collect(),
+        })),
+        other => other.clone(),
+    }
+}
+
+fn only_seconds_offset_timestamps_differ(a: &V, b: &V) -> bool {
+    let (x, y) = (blank_seconds_offset_timestamps(a), blank_seconds_offset_timestamps(b));
+    same_strict(a, &x).is_err() && same_strict(&x, &y).is_ok()
+}
+
 fn drop_empty_rows_of_one_column_grids(v: &V) -> V {
     use crate::model::v::G;
     let f = drop_empty_rows_of_one_column_grids;
@@ -90,6 +115,9 @@ pub fn zinc_stable(text: &str) -> Result<bool, (String, String)> {
                 }
             }
         }
+        if only_seconds_offset_timestamps_differ(&m1, &from_lib(&v2)) {
+            return Err(("zinc-normalisation-loses:timestamp-at-offset-with-seconds".into(), format!("{d}; {text:?} -> {t2:?}")));
+        }
         return Err((format!("zinc-normalisation-loses:{cls}"), format!("{d}; {text:?} -> {t2:?}")));
     }
     match guarded(|| to_zinc_string(&v2)) {
@@ -116,7 +144,12 @@ pub fn hayson_stable(text: &str) -> Result<bool, (String, String)> {
         Ok(Err(e)) => return Err((format!("hayson-redecode-error:{cls}"), format!("{e}; re-encoded text {t2} from {text}"))),
         Ok(Ok(v)) => v,
     };
-    same_strict(&m1, &from_lib(&v2)).map_err(|d| (format!("hayson-normalisation-loses:{cls}"), format!("{d}; {text} -> {t2}")))?;
+    if let Err(d) = same_strict(&m1, &from_lib(&v2)) {
+        if only_seconds_offset_timestamps_differ(&m1, &from_lib(&v2)) {
+            return Err(("hayson-normalisation-loses:timestamp-at-offset-with-seconds".into(), format!("{d}; {text} -> {t2}")));
+        }
+        return Err((format!("hayson-normalisation-loses:{cls}"), format!("{d}; {text} -> {t2}")));
+    }
     match guarded(|| serde_json::to_string(&v2)) {
         Ok(Ok(t3)) if t3 == t2 => Ok(true),
         other => Err((format!("hayson-not-a-fixed-point:{cls}"), format!("{t2} re-encodes as {other:?}"))),
